@@ -82,9 +82,8 @@ func c09Session(c *Ctx, server bool, pmd bool, fault string, k int, tag string) 
 		r3 := rawSend(conn, sendOp{API: "async", Opcode: 2, Slices: [][]byte{[]byte("async")}})
 		r4 := rawSend(conn, sendOp{API: "writev", Opcode: 2, Slices: [][]byte{[]byte("one slice through the vectored call")}})
 		r5 := rawSend(conn, sendOp{API: "writevasync", Opcode: 1, Slices: [][]byte{[]byte("vectored, "), []byte("asynchronous")}})
-		results = append(results, r4, r5)
+		results = append(results, r1, r2, r3, r4, r5) // in the order of the calls
 		_ = conn.SetDeadline(time.Time{})
-		results = append(results, r1, r2, r3)
 		tap.feed(cutChunks(c, stream, 2)...)
 		tap.setEOF()
 		conn.ReadLoop()
@@ -100,6 +99,17 @@ func c09Session(c *Ctx, server bool, pmd bool, fault string, k int, tag string) 
 	for i, r := range results {
 		if r == 9 {
 			return fmt.Sprintf("write call #%d of the session panicked", i), "fault-panic", replay
+		}
+	}
+	// a write call that failed ended the connection: every later call is rejected (100 = a queued broadcast, no result)
+	for i, r := range results {
+		if r != 0 && r != 100 {
+			for j := i + 1; j < len(results); j++ {
+				if results[j] != 1 && results[j] != 100 {
+					return fmt.Sprintf("write call #%d failed (result %d) and call #%d after it returned %d instead of the closed-connection error: the fault did not end the connection (results %v)", i, r, j, results[j], results), "fault-no-teardown", replay
+				}
+			}
+			break
 		}
 	}
 	opens, closes := 0, 0
